@@ -25,6 +25,26 @@ type Obligation struct {
 	Res SolveResult
 	// model hints for replay: names of SMT constants that stand for inputs
 	Inputs map[string]string
+	// hypothesis selection (sound: dropping hypotheses only weakens what can be proved)
+	Only []string // if non-nil: keep only labelled hypotheses whose label has one of these prefixes
+	Hide []string // drop labelled hypotheses with these prefixes
+}
+
+func (o *Obligation) dropLabel(l string) bool {
+	for _, h := range o.Hide {
+		if strings.HasPrefix(l, h) {
+			return true
+		}
+	}
+	if o.Only != nil {
+		for _, k := range o.Only {
+			if strings.HasPrefix(l, k) {
+				return false
+			}
+		}
+		return true
+	}
+	return false
 }
 
 type State struct {
@@ -65,6 +85,8 @@ type VC struct {
 	sorts    map[Sort]bool
 	sortList []Sort
 	trace    []string
+	labels   []string // parallel to trace: origin label of each assumption ("" = always kept)
+	curLabel string
 	obls     []*Obligation
 	fresh    int
 	counts   map[string]int
@@ -144,6 +166,7 @@ func (vc *VC) define(base string, s Sort, term string) string {
 	n := vc.freshName(base)
 	vc.decls = append(vc.decls, fmt.Sprintf("(declare-const %s %s)", n, s))
 	vc.trace = append(vc.trace, fmt.Sprintf("(assert (= %s %s))", n, term))
+	vc.labels = append(vc.labels, "")
 	return n
 }
 
@@ -170,10 +193,12 @@ func (vc *VC) assume(st *State, fact string) {
 		return
 	}
 	vc.trace = append(vc.trace, fmt.Sprintf("(assert %s)", implies(st.pc, fact)))
+	vc.labels = append(vc.labels, vc.curLabel)
 }
 
 func (vc *VC) axiom(fact string) {
 	vc.trace = append(vc.trace, fmt.Sprintf("(assert %s)", fact))
+	vc.labels = append(vc.labels, "")
 }
 
 // oblige records a proof obligation: under st.pc, goal must hold.
@@ -199,6 +224,7 @@ func (vc *VC) oblige(st *State, kind string, clause string, pos token.Pos, goal 
 	}
 	o := &Obligation{Name: name, Func: fk, Kind: kind, Pos: vc.prog.pos(pos), DeclN: len(vc.decls), TraceN: len(vc.trace),
 		PC: st.pc, Goal: goal, Desc: desc}
+	vc.applySelection(o, kind, clause)
 	vc.obls = append(vc.obls, o)
 	return o
 }
@@ -219,7 +245,11 @@ func (vc *VC) query(o *Obligation, model bool) string {
 		b.WriteString(d)
 		b.WriteByte('\n')
 	}
-	for _, t := range vc.trace[:o.TraceN] {
+	for i, t := range vc.trace[:o.TraceN] {
+		if l := vc.labels[i]; l != "" && o.dropLabel(l) {
+			b.WriteString("; hidden hypothesis [" + l + "]\n")
+			continue
+		}
 		b.WriteString(t)
 		b.WriteByte('\n')
 	}
@@ -424,4 +454,32 @@ func (vc *VC) zeroTerm(t types.Type, s Sort) string {
 		vc.decls = append(vc.decls, fmt.Sprintf("(declare-const %s %s)", z, s))
 	}
 	return z
+}
+
+// applySelection attaches only()/hide() hypothesis selections declared in the function's contract.
+func (vc *VC) applySelection(o *Obligation, kind, clause string) {
+	if vc.fn == nil {
+		return
+	}
+	specs := []*SpecInfo{vc.fn.Spec}
+	for _, l := range vc.fn.Loops {
+		specs = append(specs, l)
+	}
+	for _, si := range specs {
+		if si == nil {
+			continue
+		}
+		for _, sel := range si.Selections {
+			if sel.Clause == clause || sel.Clause == kind+"."+clause || (strings.HasSuffix(clause, "."+sel.Clause) && strings.HasPrefix(kind, "inv")) {
+				if sel.Only {
+					o.Only = append(append([]string{}, o.Only...), sel.Labels...)
+					if o.Only == nil {
+						o.Only = []string{}
+					}
+				} else {
+					o.Hide = append(o.Hide, sel.Labels...)
+				}
+			}
+		}
+	}
 }
